@@ -253,7 +253,7 @@ for n in ["send_moves_receiver_small", "send_moves_receiver_frag", "send_moves_r
 # cost grows steeply with the number of selects (rxset_two_members, three selects, does not finish in 25 min).
 _set_sym = "payload bytes symbolic; the script (members, who gets what, when a sender goes away, when select is called) concrete per harness"
 _set_b = "unwind 14; <= 3 members, <= 2 selects, messages of 1 and 2 packets"
-for n in ["rxset_one_member", "rxset_two_multi", "rxset_closed_then_other", "rxset_add_queued_two", "rxset_id_after_close"]:
+for n in ["rxset_one_member", "rxset_multi_then_small", "rxset_two_multi", "rxset_closed_then_other", "rxset_add_queued_two", "rxset_id_after_close"]:
     H(n, ["C06"], sym=_set_sym, bounds=_set_b)
 H("rxset_backlog_65", ["C06"], features="k_q,bigq", timeout=1500, sym="the last message's byte symbolic; 65 one-byte messages queued on one member before the wait, then its sender goes away", bounds="unwind 70; model configuration bigq (70 packets in flight)")
 H("rxset_add_refused", ["C11", "C06"], sym=_set_sym + "; the second add's registration with the poller is refused (epoll_ctl: ENOSPC)", bounds=_set_b)
